@@ -170,6 +170,9 @@ def parse_vspec(path):
                 raise SliceError('%s: bad decl-line: %s' % (path, rest))
             spec['decls'].append(m.group(1).replace('\\"', '"').replace('\\\\', '\\'))
             cur = None
+        elif key == 'rules':
+            spec.setdefault('rulesets', []).extend(rest.split())
+            cur = None
         elif key == 'subre':
             # regular-expression substitution (a rewrite rule applied to every match): subre R.. /regex/ => "replacement with \\1"
             m = re.match(r'\s*(R\d+[a-z]?)\s+/((?:[^/\\]|\\.)*)/\s*=>\s*"((?:[^"\\]|\\.)*)"\s*$', rest)
@@ -461,6 +464,140 @@ def apply_r27(mt, log):
         log.append(('R27', '%s.iter().skip(%s).try_fold(..) => indexed loop over the same closure body' % (recv, n_)))
 
 
+def _split_top(text, msk, sep=','):
+    """split `text` at top-level separators (brackets balanced on the masked copy)"""
+    parts, d, cur = [], 0, 0
+    for i_, ch in enumerate(msk):
+        if ch in '([{':
+            d += 1
+        elif ch in ')]}':
+            d -= 1
+        elif ch == sep and d == 0:
+            parts.append(text[cur:i_])
+            cur = i_ + 1
+    parts.append(text[cur:])
+    return [p_ for p_ in (x.strip() for x in parts) if p_]
+
+
+def apply_r29(mt, log):
+    """R29: nom parser combinators over `&str`, replaced by their documented definitions (nom 7, `complete` flavour).  The structure of the
+    real code is kept: order of alternatives, tag texts, result constructors, the parser applied by opt / many1.
+      alt((map(tag("S")|char('C'), |_| R), ..))(X)  ==>  first alternative whose tag is a prefix of X wins: Ok((rest, R)); none: Err(Error)
+      char('C')(X)                                    ==>  nom::__char_p(X, 'C')
+      opt(F)(X)                                       ==>  nom::__opt(F(X), X)      (an Err::Error of F becomes Ok((X, None)))
+      many1(F)(X)                                     ==>  loop applying F until it fails recoverably; at least one success
+      E.iter().fold(INIT, |a, x| BODY)                ==>  indexed loop running BODY once per element
+      E.map(|(a, b)| BODY)                            ==>  match E { Ok((a, b)) => Ok(BODY), Err(e) => Err(e) }"""
+    # alt of mapped tags
+    while True:
+        msk = mask(mt.text)
+        m = re.search(r'\balt\(\(', msk)
+        if not m:
+            break
+        o1 = m.end() - 2
+        c1 = match_close(msk, o1)
+        am = re.match(r'\((\w+)\)', msk[c1 + 1:])
+        if not am:
+            break
+        inner_o = o1 + 1
+        inner_c = match_close(msk, inner_o)
+        elems = [re.sub(r'(?m)^\s*//[^\n]*\n', '', e_).strip() for e_ in _split_top(mt.text[inner_o + 1:inner_c], msk[inner_o + 1:inner_c])]
+        arms = []
+        ok = True
+        for e_ in elems:
+            em = re.match(r'map\(\s*(tag\(("(?:[^"\\]|\\.)*")\)|char\((\'(?:[^\'\\]|\\.)\')\))\s*,\s*\|_\|\s*(.+)\)\s*$', e_, re.S)
+            if not em:
+                ok = False
+                break
+            if em.group(2):
+                arms.append('if let Some(__r) = nom::__tag(__in, %s) { Ok((__r, %s)) }' % (em.group(2), em.group(4).strip()))
+            else:
+                arms.append('if let Some(__r) = nom::__char(__in, %s) { Ok((__r, %s)) }' % (em.group(3), em.group(4).strip()))
+        if not ok:
+            break
+        new = '{ let __in = %s;\n%s\nelse { Err(nom::__error(__in)) } }' % (am.group(1), '\nelse '.join(arms))
+        mt.replace(m.start(), c1 + 1 + am.end(), new)
+        log.append(('R29', 'alt((map(tag|char, ..) x%d))(%s) => first matching prefix wins' % (len(arms), am.group(1))))
+    for rx, rep, what in ((r"\bchar\(('(?:[^'\\]|\\.)')\)\((\w+)\)", r'nom::__char_p(\2, \1)', "char('c')(i)"),
+                          (r'\bopt\((\w+)\)\((\w+)\)', r'nom::__opt(\1(\2), \2)', 'opt(f)(i)')):
+        n_ = len(re.findall(rx, mt.text))
+        if n_:
+            pos_ = 0
+            while True:
+                m_ = re.compile(rx).search(mt.text, pos_)
+                if not m_:
+                    break
+                new_ = m_.expand(rep)
+                mt.replace(m_.start(), m_.end(), new_)
+                pos_ = m_.start() + len(new_)
+            log.append(('R29', '%s => definition (x%d)' % (what, n_)))
+    # many1(F)(X)
+    while True:
+        m = re.search(r'\bmany1\((\w+)\)\((\w+)\)', mt.text)
+        if not m:
+            break
+        f_, x_ = m.group(1), m.group(2)
+        new = ('{ let mut __many: Vec<_> = Vec::new(); let mut __in = %s; let mut __fail = None; let mut __go = true;\n'
+               'while __go {\n'
+               'match %s(__in) {\n'
+               'Ok((__r, __o)) => {\nif nom::__same_len(__r, __in) {\n__fail = Some(nom::__error(__in)); __go = false;\n} else {\n__many.push(__o);\n__in = __r;\n}\n}\n'
+               'Err(__e) => {\nif __many.len() == 0 || !nom::__recoverable(&__e) { __fail = Some(__e); }\n__go = false;\n}\n'
+               '}\n'
+               '}\n'
+               'match __fail { Some(__e) => Err(__e), None => Ok((__in, __many)) } }') % (x_, f_)
+        mt.replace(m.start(), m.end(), new)
+        log.append(('R29', 'many1(%s)(%s) => loop: apply until a recoverable error, at least once, no progress is an error' % (f_, x_)))
+    # E.iter().fold(INIT, |a, x| BODY)
+    while True:
+        msk = mask(mt.text)
+        m = re.search(r'(\b\w+)\.iter\(\)\s*\.fold\(', msk)
+        if not m:
+            break
+        o = m.end() - 1
+        c = match_close(msk, o)
+        parts = _split_top(mt.text[o + 1:c], msk[o + 1:c])
+        parts = [parts[0], ', '.join(parts[1:])] if len(parts) >= 2 else parts
+        cm = re.match(r'\|\s*(\w+)\s*,\s*(\w+)\s*\|\s*(.+)$', parts[1], re.S) if len(parts) == 2 else None
+        if not cm:
+            break
+        new = ('{ let mut __facc = %s; let mut __fi: usize = 0;\nwhile __fi < %s.len() {\nlet %s = &%s[__fi]; let %s = __facc;\n__facc = %s;\n__fi = __fi + 1;\n}\n__facc }'
+               % (parts[0], m.group(1), cm.group(2), m.group(1), cm.group(1), cm.group(3).strip()))
+        mt.replace(m.start(), c + 1, new)
+        log.append(('R29', '%s.iter().fold(..) => indexed loop over the same closure body' % m.group(1)))
+    # E.map(|(a, b)| BODY) on a Result (tuple-pattern closure)
+    while True:
+        msk = mask(mt.text)
+        m = re.search(r'\.map\(\|\((\w+), (\w+)\)\|', msk)
+        if not m:
+            break
+        o = msk.find('(', m.start())
+        c = match_close(msk, o)
+        body = mt.text[m.end():c].strip()
+        # receiver: the block / call expression right before `.map`
+        k = m.start()
+        j = k
+        while j > 0 and msk[j - 1].isspace():
+            j -= 1
+        if j > 0 and msk[j - 1] in ')}':
+            dpt = 0
+            while j > 0:
+                j -= 1
+                if msk[j] in ')}':
+                    dpt += 1
+                elif msk[j] in '({':
+                    dpt -= 1
+                    if dpt == 0:
+                        break
+            while j > 0 and (msk[j - 1].isalnum() or msk[j - 1] in '_:'):
+                j -= 1
+        else:
+            break
+        recv = mt.text[j:k]
+        new = 'match %s { Ok((%s, %s)) => Ok(%s), Err(__e) => Err(__e) }' % (recv.strip(), m.group(1), m.group(2), body)
+        mt.replace(j, c + 1, new)
+        log.append(('R29', 'Result::map with a tuple-pattern closure => match'))
+
+
 def apply_r33(mt, log):
     """R33: a match arm `P1 | P2 if G => E` (binding-free patterns: paths / literals) ==> `P1 if G => E, P2 if G => E`
     (definition of or-patterns; Verus does not take an or-pattern together with a guard)"""
@@ -726,8 +863,9 @@ class Weaver:
         return self.sources[rel]
 
     # ---------------------------------------------------------------------------------------
-    def weave(self, group, extras=(), bare=(), drop_aids=None):
+    def weave(self, group, extras=(), bare=(), drop_aids=None, nodecr=()):
         self.extras = list(extras)
+        self.nodecr = set(nodecr)
         self.bare = set(bare)
         self.drop_aids = drop_aids or {}
         w = Woven(group)
@@ -918,6 +1056,11 @@ class Weaver:
                         notes=['auto-extracted helper without contract'], implextra=[], aftereach=[], regions=[], tail=None, tailbind=None, implas=None)
         else:
             spec = parse_vspec(os.path.join(self.verif, 'contracts', unit + '.vspec'))
+        if unit in getattr(self, 'nodecr', ()) and mode == 'verify':
+            # the changed code has a loop without a decreases clause: termination of this unit is not checked (the unit is undecided),
+            # so that the other units of the group are still verified
+            spec = dict(spec, attrs=list(spec['attrs']) + ['#[verifier::exec_allows_no_decreases_clause]'],
+                        notes=list(spec['notes']) + ['loop without decreases clause: termination not checked'])
         if unit in getattr(self, 'bare', ()) and mode == 'verify':
             # a proof aid of this unit no longer type-checks against the changed code: keep the contract, drop every aid
             spec = dict(spec, loops={}, closures={}, ats=[], tail=None, tailbind=None,
@@ -1096,6 +1239,8 @@ class Weaver:
             log.append((rid, '/%s/  =>  %s  (x%d)' % (rx_, rep_, n_)))
         apply_r8(mt, log)
         apply_r27(mt, log)
+        if 'nom' in (spec.get('rulesets') or []):
+            apply_r29(mt, log)
         apply_r33(mt, log)
         apply_global_rules(mt, log)
         # All woven text goes in through placeholders that are expanded at the very end, so that loop / closure
